@@ -212,9 +212,15 @@ KANI["vk_plain_server_accepts_only_configured_credentials"] = {
   "what": "PlainMechanism (server): a token is accepted only if it is a well-formed HELLO carrying exactly the configured credentials; a rejected peer cannot recover",
   "pairs_fn": ["PlainMechanism::process_token"],
 }
+KANI["vk_negotiate_only_enabled_mechanisms"] = {
+  "module": "core/src/security/mod.rs", "file": "kani/negotiate.rs", "props": ["C06"], "kind": "complete", "timeout": 1500,
+  "what": "negotiate_security_mechanism over ALL 20-byte mechanism fields x configuration flags x role (default feature set): a mechanism is returned only if the peer named exactly a locally enabled one; NULL only when no security is configured "
+          "(the contract the engine proof assumes for this function, minus the role clause, which is not observable through the trait object)",
+  "pairs_fn": ["negotiate_security_mechanism"],
+}
 PROPS["C06"]["units"] = ["engine", "plain"]
 PROPS["C06"]["kani_fallback"] = ["vk_plain_server_accepts_only_configured_credentials"]
-PROPS["C06"]["kani_thorough"] = ["vk_plain_server_accepts_only_configured_credentials"]
+PROPS["C06"]["kani_thorough"] = ["vk_plain_server_accepts_only_configured_credentials", "vk_negotiate_only_enabled_mechanisms"]
 PROPS["C06"]["claim"] += (" For PLAIN the mechanism side of that contract is proved too (unit plain): the server reaches ServerSendWelcome/Ready only through a well-formed HELLO whose username AND password equal the configured ones "
                           "(no configured credentials => every HELLO is rejected), an error is terminal, Ready on the server is reachable only from ServerSendWelcome.")
 PROPS["C06"]["level_note"] = ("Relative to the abstract Mechanism contract for CURVE/Noise (cryptography: not applicable) and to negotiate_security_mechanism's contract (assumed). "
